@@ -4,3 +4,4 @@ CONSTANTS MaxLen = 5
           Variant = "loopend-any-kind"
 INVARIANTS NoBad PsLive ChainLive AllClosedAtEnd LoopsEnclose LevelIsDepth
 CHECK_DEADLOCK FALSE
+VIEW View
